@@ -504,7 +504,18 @@ func (l *irLoader) unwrapInterfaceExpr(filter ir.FilterExpr) (*types.Interface, 
 		return nil, l.errorf(filter.Line, nil, "expected a non-empty type name string")
 	}
 
-	typ, err := l.state.FindType(l.importer, l.pkg, typeString)
+	// `pkg.T` with pkg bound by Import() (or a stdlib default) names that package, not the path "pkg".
+	fqn := typeString
+	if n, err := parser.ParseExpr(typeString); err == nil {
+		if qn, ok := n.(*ast.SelectorExpr); ok {
+			if pkgName, ok := qn.X.(*ast.Ident); ok {
+				if pkgPath, ok := l.itab.Lookup(pkgName.Name); ok {
+					fqn = pkgPath + "." + qn.Sel.Name
+				}
+			}
+		}
+	}
+	typ, err := l.state.FindType(l.importer, l.pkg, fqn)
 	if err == nil {
 		iface, ok := typ.Underlying().(*types.Interface)
 		if !ok {
